@@ -3,6 +3,7 @@ package main
 import (
 	"fmt"
 	"sort"
+	"strings"
 	"go/token"
 	"go/types"
 	"unicode/utf8"
@@ -646,6 +647,7 @@ type iterator interface {
 type mapIter struct {
 	mp        *MapV
 	remaining []*mapEntry
+	fixed     bool
 }
 
 func (it *mapIter) next(m *Machine) Tuple {
@@ -661,7 +663,7 @@ func (it *mapIter) next(m *Machine) Tuple {
 		return Tuple{tFalse, nil, nil}
 	}
 	k := 0
-	if len(rem) > 1 && !m.mapOrderFixed {
+	if len(rem) > 1 && !m.mapOrderFixed && !it.fixed {
 		opts := make([]int, len(rem))
 		for i := range opts {
 			opts[i] = i
@@ -708,7 +710,14 @@ func (m *Machine) rangeIter(x Value, t types.Type) iterator {
 			return &mapIter{}
 		}
 		m.onMapAccess(nil, x, false, nil)
-		return &mapIter{mp: x, remaining: x.live()}
+		it := &mapIter{mp: x, remaining: x.live()}
+		ts := t.String()
+		for _, ft := range m.fixedOrderTypes {
+			if strings.Contains(ts, ft) {
+				it.fixed = true
+			}
+		}
+		return it
 	case *Str:
 		return &strIter{s: x}
 	}
